@@ -832,12 +832,16 @@ package redis
 //@   requires @handlers-wellformed forall k string :: has(s.p.cmdHdlrs, k) ==> s.p.cmdHdlrs[k] != nil
 //@   modifies all
 //@   ensures @done-closed-on-every-return closed(s.done)
+//@   ensures @the-session-has-quit-when-serve-returns closed(s.quit)
 
 //@ func (*client).Start
 //@   prop C09 C02 C07
 //@   alsoprop C11 : no-panic
 //@   requires c != nil && c.done != nil && !closed(c.done)
 //@   callpre drainRequests @the-final-drain-runs-after-the-writer-has-finished waitedfor(writeDone)
+//@   flag model-once
+//@   assume @before:Do c.quit != nil && oncedone(c.quitOnce) == closed(c.quit)
+//@   callpre drainRequests @the-final-drain-runs-once-the-quit-latch-is-closed closed(c.quit)
 //@   modifies all
 //@   ensures @done-closed-on-every-return closed(c.done)
 
@@ -1230,10 +1234,19 @@ package redis
 //@   ensures @a-new-session-is-wired-and-not-finished result != nil && fresh(result) && result.p == p && result.conn == conn && result.dec != nil && decoderOK(result.dec) && result.enc != nil && result.processingReqs != nil && result.quit != nil && !closed(result.quit) && result.done != nil && !closed(result.done)
 
 //@ func (*session).doQuit
-//@   prop C09
+//@   prop C09 C01
 //@   alsoprop C11 : no-panic
+//@   flag model-once
 //@   requires s != nil
+//@   assume s.quit != nil && oncedone(s.quitOnce) == closed(s.quit)
 //@   modifies all
+//@   ensures @the-session-quit-latch-is-closed closed(s.quit)
+
+//@ func (*session).doQuit$1
+//@   prop C09 C01
+//@   requires deref(s) != nil && deref(s).quit != nil && !closed(deref(s).quit)
+//@   modifies closed(deref(s).quit)
+//@   ensures @quit-latch-closed closed(deref(s).quit)
 
 //@ func (*redisProc).handleConn
 //@   prop C09 C01
@@ -1282,6 +1295,7 @@ package redis
 //@   callpre upstream).Stop @the-upstream-of-this-processor-is-stopped arg0 == p.u
 //@   assume @before:upstream).Stop p.u.quit != nil && !closed(p.u.quit) && p.u.done != nil
 //@   callpre Listener).Stop @the-listener-of-this-processor-is-stopped arg0 == p.l
+//@   callpre Wait @stop-waits-for-both-serve-goroutines arg0 == p.wg
 
 //@ func (*upstream).Stop
 //@   prop C09
@@ -1458,3 +1472,69 @@ package redis
 //@   ensures @hotkey-filter-then-compress-filter-unconditionally result == nil && c.filter != nil && len(c.filter.filters) == 2 && typeis(c.filter.filters[0], "*hotKeyFilter") && typeis(c.filter.filters[1], "*compressFilter") && ifaceptr(c.filter.filters[0], "*hotKeyFilter") != nil && ifaceptr(c.filter.filters[1], "*compressFilter") != nil && ifaceptr(c.filter.filters[1], "*compressFilter").cfg == c.cfg && ifaceptr(c.filter.filters[0], "*hotKeyFilter").counter == c.keyCounter
 //@   loop 0 invariant @built-in-order chain != nil && fresh(chain) && fresh(chain.filters) && fresh(filters) && disjoint(filters, chain.filters) && len(chain.filters) == rangeindex + 1 && cap(chain.filters) == 4 && len(filters) == 2 && forall k int :: 0 <= k && k <= rangeindex ==> chain.filters[k] == filters[k]
 //@   loop 0 invariant @the-two-filters typeis(filters[0], "*hotKeyFilter") && typeis(filters[1], "*compressFilter") && ifaceptr(filters[0], "*hotKeyFilter") != nil && ifaceptr(filters[1], "*compressFilter") != nil && ifaceptr(filters[1], "*compressFilter").cfg == c.cfg && ifaceptr(filters[0], "*hotKeyFilter").counter == c.keyCounter
+
+//@ func (*compressFilter).Do$1
+//@   prop C13
+//@   alsoprop C11 : no-panic
+//@   requires @hooks-run-once-the-reply-is-set request != nil && request.resp != nil && deref(f) != nil
+//@   callpre Decompress @the-reply-of-this-very-request-is-inflated-by-this-filter arg0 == deref(f) && arg1 == request.resp
+//@   modifies heap("RespValue.Text"), buflen, cpslen
+
+// ---- C09/C07/C02: the quit latch of a backend client is closed through its Once, by Start when the reader has
+// finished and by Stop; Stop returns only after the client has finished -------------------------------------
+
+//@ func (*client).Start$2
+//@   prop C09 C02 C07
+//@   requires deref(c) != nil && deref(c).quit != nil && !closed(deref(c).quit)
+//@   modifies closed(deref(c).quit)
+//@   ensures @quit-latch-closed closed(deref(c).quit)
+
+//@ func (*client).Stop$1
+//@   prop C09 C07
+//@   requires deref(c) != nil && deref(c).quit != nil && !closed(deref(c).quit)
+//@   modifies closed(deref(c).quit)
+//@   ensures @quit-latch-closed closed(deref(c).quit)
+
+//@ func (*client).Stop
+//@   prop C09 C07
+//@   alsoprop C11 : no-panic
+//@   flag model-once
+//@   requires c != nil
+//@   assume c.quit != nil && c.done != nil && c.filter != nil && oncedone(c.quitOnce) == closed(c.quit)
+//@   modifies all
+//@   callpre (net.Conn).Close @the-quit-latch-is-closed-before-the-socket-is closed(c.quit)
+//@   callpre Reset @filters-are-released-only-after-the-client-has-finished waitedfor(c.done)
+//@   proves @stop-returns-only-after-the-client-has-finished waitedfor(c.done)
+
+//@ func (*FilterChain).Reset
+//@   prop C19 C09
+//@   alsoprop C11 : no-panic
+//@   requires c != nil
+//@   modifies all
+//@   loop 0 assume c.filters == old(c.filters) && forall k int :: 0 <= k && k < len(c.filters) ==> c.filters[k] != nil
+//@   ensures @every-filter-was-released-and-the-chain-is-empty len(c.filters) == 0
+
+// ---- C09: starting a Redis processor: one goroutine serves the upstream, one the listener, each gives its
+// wait-group unit back when serving has ended (Stop waits for both) --------------------------------------------
+
+//@ func (*redisProc).Start
+//@   prop C09
+//@   alsoprop C11 : no-panic
+//@   requires p != nil && p.u != nil
+//@   modifies all
+//@   callpre Add @one-unit-per-serve-goroutine arg0 == p.wg && arg1 == 1
+
+//@ func (*redisProc).Start$1
+//@   prop C09
+//@   requires deref(p) != nil && deref(p).u != nil
+//@   assume deref(p).u.done != nil && !closed(deref(p).u.done) && clientsok(deref(p).u)
+//@   modifies all
+//@   callpre Serve @the-upstream-of-this-processor-is-served arg0 == deref(p).u
+//@   callpre Done @the-unit-is-given-back-once-serving-has-ended arg0 == deref(p).wg
+
+//@ func (*redisProc).Start$2
+//@   prop C09
+//@   requires deref(p) != nil
+//@   modifies all
+//@   callpre Serve @the-listener-of-this-processor-is-served arg0 == deref(p).l
+//@   callpre Done @the-unit-is-given-back-once-serving-has-ended arg0 == deref(p).wg
